@@ -191,4 +191,85 @@ theorem setElevation_raise_one (fs : Bool) (fuel : Nat) (m m' : Map) (e : Int) (
   simp only [Prod.mk.injEq] at e1 e2
   omega
 
+/-- **raising by one level**: on a map that is at `e - 1` everywhere outside the rectangle (inside: anything), `set_elevation(e, rectangle)` (more than one
+tile) returns the map with exactly the rectangle's tiles set to `e` -/
+theorem setElevation_raise_one_gen (fs : Bool) (fuel : Nat) (m m' : Map) (e : Int) (x1 y1 x2 y2 : Nat) (hwf : WF m)
+    (hx : x1 ≤ x2) (hx2 : x2 < m.size) (hy : y1 ≤ y2) (hy2 : y2 < m.size) (hns : ¬ (x1 = x2 ∧ y1 = y2))
+    (hm : ∀ (k : Nat) (t : Tile), m.tiles[k]? = some t → k ∉ (rectRows m.size x1 y1 x2 y2).flatten → t.elevation = e - 1)
+    (h : setElevation fs fuel m e x1 y1 (some (x2 : Int)) (some (y2 : Int)) = .ok m') :
+    m' = (rectRows m.size x1 y1 x2 y2).flatten.foldl (fun m k => setElevAt m k e) m := by
+  have hc : ¬ ((x1 : Int) = (x2 : Int) ∧ (y1 : Int) = (y2 : Int)) := by omega
+  unfold setElevation at h
+  simp only [Option.getD_some, if_neg hc, squareRowsPos_spec m hwf x1 y1 x2 y2 hx hx2 hy hy2] at h
+  obtain ⟨rows, hrows, h⟩ := bind_ok _ _ _ h
+  injection hrows with hps
+  subst hps
+  generalize hm1 : (rectRows m.size x1 y1 x2 y2).flatten.foldl (fun m k => setElevAt m k e) m = m1 at h
+  have ff : Frame (fun k => k ∉ (rectRows m.size x1 y1 x2 y2).flatten) m m1 := hm1 ▸ fill_frame e _ m
+  have hwf1 : WF m1 := ff.wf hwf
+  have hsz : m1.size = m.size := ff.size
+  have b1 : Bnd (e - 1) e m1 := by
+    intro k t ht
+    rw [← hm1, fill_spec] at ht
+    split at ht
+    · cases hmk : m.tiles[k]? with
+      | none => simp [hmk] at ht
+      | some t0 => simp [hmk] at ht; subst ht; simp [Tile.withElev]; omega
+    · next hk => rw [hm k t ht hk]; omega
+  obtain ⟨xys, hxys, h⟩ := bind_ok _ _ _ h
+  obtain ⟨first, hfirst, h⟩ := bind_ok _ _ _ h
+  obtain ⟨last, hlast, h⟩ := bind_ok _ _ _ h
+  obtain ⟨mids, hmids, h⟩ := bind_ok _ _ _ h
+  have hrect : ∀ k ∈ (rectRows m.size x1 y1 x2 y2).flatten, ∀ st, m1.tiles[k]? = some st → st.elevation = e := by
+    intro k hk st hst
+    rw [← hm1, fill_spec, if_pos hk] at hst
+    cases hmk : m.tiles[k]? with
+    | none => simp [hmk] at hst
+    | some t0 => simp [hmk] at hst; subst hst; rfl
+  have hhi : ∀ k t, m1.tiles[k]? = some t → t.elevation = e → e - 1 < e →
+      k ∈ (rectRows m.size x1 y1 x2 y2).flatten := by
+    intro k t ht hte _
+    by_cases hk : k ∈ (rectRows m.size x1 y1 x2 y2).flatten
+    · exact hk
+    · rw [← hm1, fill_spec, if_neg hk] at ht
+      have := hm k t ht hk
+      omega
+  have H := protect_of_xys m1 hwf1 xys (fun k => k ∈ (rectRows m.size x1 y1 x2 y2).flatten) (by
+    intro k hk
+    obtain ⟨c, hc, hkc⟩ := mapM_ok_mem _ _ _ hxys k hk
+    obtain ⟨t, hg, hkc⟩ := bind_ok _ _ _ hkc
+    exact ⟨t, listGet_ok _ _ _ hg, c, hc, hkc⟩)
+  have hedge : ∀ k ∈ first ++ last ++ mids.flatten, k ∈ (rectRows m.size x1 y1 x2 y2).flatten := by
+    intro k hk
+    simp only [List.mem_append, List.mem_flatten] at hk ⊢
+    rcases hk with (hk | hk) | ⟨pr, hpr, hk⟩
+    · exact ⟨first, pyFirst_mem _ _ hfirst, hk⟩
+    · exact ⟨last, pyLast_mem _ _ hlast, hk⟩
+    · obtain ⟨r, hr, hf⟩ := mapM_ok_mem' _ _ _ hmids pr hpr
+      have hr' : r ∈ rectRows m.size x1 y1 x2 y2 := List.mem_of_mem_drop (List.dropLast_subset _ hr)
+      obtain ⟨a, ha, hf⟩ := bind_ok _ _ _ hf
+      obtain ⟨b, hbb, hf⟩ := bind_ok _ _ _ hf
+      simp only [pure, Except.pure] at hf
+      injection hf with hf; subst hf
+      simp only [List.mem_cons, List.mem_nil_iff, or_false] at hk
+      rcases hk with rfl | rfl
+      · exact ⟨r, hr', pyFirst_mem _ _ ha⟩
+      · exact ⟨r, hr', pyLast_mem _ _ hbb⟩
+  refine foldlM_noop _ m1 _ m' (fun k hk m2 hst => ?_) h
+  have hkr := hedge k hk
+  refine elevRec_noop_hi (e - 1) e (by omega) (fun k => k ∈ (rectRows m.size x1 y1 x2 y2).flatten) xys fuel m1 k [] m2
+    b1 (hrect k hkr) H hhi ?_ hst
+  intro st xy hst' hxy o ko kb hko hkb hPkb
+  rw [tileXY_wf m1 hwf1 k st hst'] at hxy
+  injection hxy with hxy
+  have e1 := xy_of_xyToI _ _ _ _ hko
+  have e2 := xy_of_xyToI _ _ _ _ hkb
+  rw [hsz] at hxy e1 e2
+  have pk := (mem_rect_iff m.size x1 y1 x2 y2 k hx2).mp hkr
+  have pb := (mem_rect_iff m.size x1 y1 x2 y2 kb hx2).mp hPkb
+  refine (mem_rect_iff m.size x1 y1 x2 y2 ko hx2).mpr ?_
+  subst hxy
+  simp only [Prod.mk.injEq] at e1 e2
+  omega
+
 end Aoe.Map
